@@ -71,9 +71,23 @@ Definition step_check (st : zset * sset) (x : step) : (zset * sset) * nat :=
   let prop_ok := out_eqb so (s_out x) in
   ((z', a'), kind_of model_ok prop_ok).
 
+(* A model mismatch (kind 1: return value or dump differs from the model) must not hide what the
+   implementation does afterwards: the remaining steps are still judged against the Spec, whose state
+   depends on the operations only.  Reported: the first property violation (kind 2) if there is one,
+   otherwise the first model mismatch.  (Common.Base.scan stops at the first non-zero step: a damaged
+   back pointer seen in the dump would mask the later reverse traversal that returns the sentinel.) *)
+Fixpoint scan_all (st : zset * sset) (xs : list step) (i first1 : nat) : nat :=
+  match xs with
+  | [] => first1
+  | x :: t =>
+      let '(st', k) := step_check st x in
+      if Nat.eqb k 2 then i * 4 + 2
+      else scan_all st' t (S i) (if Nat.eqb k 1 && Nat.eqb first1 0 then i * 4 + 1 else first1)
+  end.
+
 Definition check_case (c : case) : nat :=
   match c with
-  | CSeq steps => scan step_check (zset_empty, []) steps 0
+  | CSeq steps => scan_all (zset_empty, []) steps 0 0
   | CAlg inter builds hs res len d =>
       let specs := map (fun ops => fst (run zspec_step [] ops)) builds in
       let models := map (fun ops => fst (run zset_step zset_empty ops)) builds in
